@@ -27,13 +27,13 @@ def check(prog, ctx):
              'exactly when min>max and step>0; Range(max) = Range(0,max,1)', 4)
     ctx.rule('C19.f', 'Locate_Closest_Location: with u = upper_bound position in the sorted list the function returns 0 for u=0, size-1 for u=size, '
              'and otherwise whichever of u-1, u is nearer to the target (either on a tie); unsorted input is rejected', 2)
-    grids(prog, ctx)
-    sub_list(prog, ctx, 'C19.b')
-    lists(prog, ctx)
-    stats(prog, ctx)
-    workload(prog, ctx)
-    int_range(prog, ctx)
-    closest(prog, ctx)
+    ctx.sub('grids', grids, prog, ctx)
+    ctx.sub('sub_list', sub_list, prog, ctx, 'C19.b')
+    ctx.sub('lists', lists, prog, ctx)
+    ctx.sub('stats', stats, prog, ctx)
+    ctx.sub('workload', workload, prog, ctx)
+    ctx.sub('int_range', int_range, prog, ctx)
+    ctx.sub('closest', closest, prog, ctx)
 
 
 def grids(prog, ctx):
